@@ -1,6 +1,7 @@
 package gabi
 
 import (
+	"fmt"
 	"github.com/privacybydesign/gabi/big"
 	"github.com/privacybydesign/gabi/rangeproof"
 )
@@ -270,5 +271,52 @@ func vpC12_O5() {
 			typ, factor, bnd := r.ProvenStatement()
 			vpAssert("accepted proof (omitted responses): reported statement is true of the signed value", vpHoldsStatement(typ, factor, bnd, a2))
 		}
+	}
+}
+
+func init() {
+	vpHarnesses["vpC13_O4"] = vpC13_O4
+}
+
+// C13-O4: a true inequality is provable about any hidden attribute, whichever
+// other attributes are disclosed: credential (secret, a1, a2, a3), a statement
+// on attribute ra (or on two hidden attributes at once), every subset of the
+// remaining attributes disclosed. The real prover creates the proof without error
+// or panic, it verifies, and the library reports the statement as proven.
+func vpC13_O4() {
+	pk, sk := vpKeys(0, 4, 1024, false)
+	cred := vpCredential(pk, sk, "a", 3, 256)
+	ra := 1 + vpChoose("rangeAttr", 3)
+	var disclosed []int
+	var second int
+	for i := 1; i <= 3; i++ {
+		if i == ra {
+			continue
+		}
+		switch vpChoose(fmt.Sprintf("role%d", i), 3) {
+		case 1:
+			disclosed = append(disclosed, i)
+		case 2:
+			second = i // a second statement in the same proof
+		}
+	}
+	stmts := map[int][]*rangeproof.Statement{}
+	for _, a := range []int{ra, second} {
+		if a == 0 {
+			continue
+		}
+		bound := vpBig(fmt.Sprintf("bound%d", a))
+		vpAssume(cred.Attributes[a].Cmp(bound) >= 0 && vpDifference(1, 1, bound, cred.Attributes[a]).BitLen() <= 255)
+		stmts[a] = []*rangeproof.Statement{{Sign: 1, Factor: 1, Bound: bound}}
+	}
+	ctx, nonce := vpBigBits("ctx", 256), vpBigBits("nonce", 80)
+	proof, err := cred.CreateDisclosureProof(disclosed, stmts, false, ctx, nonce)
+	vpAssert("a true statement on any hidden attribute is provable", err == nil && proof != nil)
+	if err != nil {
+		return
+	}
+	vpAssert("the proof with statements on arbitrary hidden attributes verifies", proof.Verify(pk, ctx, nonce, false))
+	for a, st := range stmts {
+		vpAssert("each statement is reported as proven at its attribute", len(proof.RangeProofs[a]) == 1 && proof.RangeProofs[a][0].Proves(st[0]))
 	}
 }
